@@ -754,6 +754,10 @@ func (o *operation) readRequestMessage(rw *responseWriter, reader io.Reader, msg
 	return nil
 }
 
+// errCompressedFlag is the error for an envelope whose compressed flag is set
+// on a stream that declared no compression.
+var errCompressedFlag = errors.New("message is marked compressed but no compression was declared")
+
 func (o *operation) processRequestEnvelope(envBuf envelopeBytes) (msgLen int, compressed bool, err error) {
 	env, err := o.clientEnveloper.decodeEnvelope(envBuf)
 	if err != nil {
@@ -761,6 +765,9 @@ func (o *operation) processRequestEnvelope(envBuf envelopeBytes) (msgLen int, co
 	}
 	if env.trailer {
 		return 0, false, malformedRequestError(errors.New("client stream cannot include status/trailer message"))
+	}
+	if env.compressed && o.client.reqCompression == nil {
+		return 0, false, malformedRequestError(errCompressedFlag)
 	}
 	if limit := o.methodConf.maxMsgBufferBytes; env.length > limit {
 		return 0, false, bufferLimitError(int64(limit))
@@ -933,6 +940,9 @@ func (r *envelopingReader) prepareNext() error {
 			return err
 		}
 		env, err = r.rw.op.clientEnveloper.decodeEnvelope(envBytes)
+		if err == nil && env.compressed && r.rw.op.client.reqCompression == nil {
+			err = errCompressedFlag
+		}
 		if err != nil {
 			err = malformedRequestError(err)
 			r.rw.reportError(err)
@@ -1479,6 +1489,9 @@ func (w *envelopingWriter) handleEnvelopeWritten() error {
 		return err
 	}
 	env, err := w.rw.op.serverEnveloper.decodeEnvelope(w.env)
+	if err == nil && env.compressed && w.rw.op.server.respCompression == nil {
+		err = errCompressedFlag
+	}
 	if err != nil {
 		err = malformedRequestError(err)
 		w.rw.reportError(err)
@@ -1701,6 +1714,9 @@ func (w *transformingWriter) Write(data []byte) (n int, err error) {
 			_, _ = w.buffer.Read(envBytes[:])
 			var err error
 			w.latestEnvelope, err = w.rw.op.serverEnveloper.decodeEnvelope(envBytes)
+			if err == nil && w.latestEnvelope.compressed && w.rw.op.server.respCompression == nil {
+				err = errCompressedFlag
+			}
 			if err != nil {
 				err = malformedRequestError(err)
 				w.rw.reportError(err)
